@@ -5,14 +5,16 @@ import BFL.Model.Extract
 Driver entries for C17 (estimate extraction and its history buffer).
 
   hb <dim> <nops> {op}        buffer-only state machine on `HistBuf (List String)` (elements are opaque tokens)
-       op :=  A tok×dim | S <unsigned> | D | I | C | G
+       op :=  A tok×dim | S <unsigned> | D | I | C | G | K | Q | QS (self move-assignment) | T   (two slots as for `ee`)
      -> per op, separated by `|`:  `<tag> <flag> <window>`   and for G: `G <cols> tok…` (newest first)
 
   ee <lin> <circ> <ncalls> {call}    the `EstimatesExtraction` state machine over `Float`
-       call := M <0..11> | W <int> | C | V
+       call := M <0..11> | W <int> | C | V | K (move-construct the other object from the current one)
+             | Q (move-assign the current object to the other one) | T (switch to the other object)
              | X <N> particles(cm, (lin+circ)×N) weights(N)
              | Y <N> <K> particles weights(N) prev_weights(K) likelihoods(N) transition(cm, N×K)
-     -> per call, separated by `|`:  `<tag> <flag> <window> [est…] [t:… branch tags] [v:… map values]`
+     -> per call, separated by `|`:  `<tag> <flag> <window> <method> [est…] [t:… branch tags] [v:… map values]`
+        (window and method of the current object after the call)
 
   eew <k>                     the three weight vectors for history length k (Float), for the weight oracle
 -/
@@ -42,7 +44,7 @@ def hbOps (dim : Nat) : Nat → R (List (String × Option (HistBuf.Op (List Stri
       | "D" => pure (some HistBuf.Op.dec)
       | "I" => pure (some HistBuf.Op.inc)
       | "C" => pure (some HistBuf.Op.clear)
-      | "G" => pure none
+      | "G" | "T" | "K" | "Q" | "QS" => pure none
       | _ => failure
     let rest ← hbOps dim n
     pure ((t, op) :: rest)
@@ -58,16 +60,25 @@ def hb : R String := do
   let dim ← nat; let n ← nat
   let ops ← hbOps dim n
   done
-  let mut h : HistBuf (List String) := HistBuf.init
+  let mut p : HistBuf.Pair (List String) := ⟨HistBuf.init, HistBuf.init⟩
+  let mut cur : Bool := false
   let mut outs : Array String := #[]
   for (t, op) in ops do
     match op with
     | none =>
-      outs := outs.push (join (["G", toString h.items.length] ++ h.items.flatten))
+      if t == "G" then
+        let h := p.get cur
+        outs := outs.push (join (["G", toString h.items.length] ++ h.items.flatten))
+      else
+        if t == "T" then cur := !cur
+        else if t == "K" then p := HistBuf.step2 p (.moveCtor cur)
+        else if t == "Q" then p := HistBuf.step2 p (.moveAssign cur (!cur))
+        else p := HistBuf.step2 p (.moveAssign cur cur)
+        outs := outs.push (join [t, "1", toString (p.get cur).window])
     | some o =>
-      let f := hbFlag h o
-      h := HistBuf.step h o
-      outs := outs.push (join [t, if f then "1" else "0", toString h.window])
+      let f := hbFlag (p.get cur) o
+      p := HistBuf.step2 p (.on cur o)
+      outs := outs.push (join [t, if f then "1" else "0", toString (p.get cur).window])
   pure (" | ".intercalate outs.toList)
 
 /-! ### EstimatesExtraction -/
@@ -78,25 +89,29 @@ def methodOfNat : Nat → Option Method
   | 8 => some .map | 9 => some .smap | 10 => some .wmap | 11 => some .emap
   | _ => none
 
+def natOfMethod : Method → Nat
+  | .mean => 0 | .smean => 1 | .wmean => 2 | .emean => 3
+  | .mode => 4 | .smode => 5 | .wmode => 6 | .emode => 7
+  | .map => 8 | .smap => 9 | .wmap => 10 | .emap => 11
+
 /-- columns of a column-major token block -/
 def colsCM (r c : Nat) : R (List (List Float)) := listOf c (listOf r flt)
 
-def readCall (lin circ : Nat) : R (String × Call Float) := do
-  let t ← tok
+def readCall1 (lin circ : Nat) (t : String) : R (Call Float) := do
   match t with
   | "M" => do
     let k ← nat
     match methodOfNat k with
-    | some m => pure (t, .setMethod m)
+    | some m => pure (.setMethod m)
     | none => failure
-  | "W" => do let n ← int; pure (t, .setWindow n)
-  | "C" => pure (t, .clear)
-  | "V" => pure (t, .move)
+  | "W" => do let n ← int; pure (.setWindow n)
+  | "C" => pure .clear
+  | "V" => pure .move
   | "X" => do
     let n ← nat
     let ps ← colsCM (lin + circ) n
     let ws ← listOf n flt
-    pure (t, .extract2 { ps := ps, ws := ws })
+    pure (.extract2 { ps := ps, ws := ws })
   | "Y" => do
     let n ← nat; let k ← nat
     let ps ← colsCM (lin + circ) n
@@ -106,16 +121,25 @@ def readCall (lin circ : Nat) : R (String × Call Float) := do
     let tpCols ← colsCM n k
     -- rows of the transition matrix
     let tp := (List.range n).map fun i => tpCols.map fun col => col.getD i 0
-    pure (t, .extract5 { ps := ps, ws := ws, pw := pw, lik := lik, tp := tp })
+    pure (.extract5 { ps := ps, ws := ws, pw := pw, lik := lik, tp := tp })
   | _ => failure
 
-def readCalls (lin circ : Nat) : Nat → R (List (String × Call Float))
+def readCall (lin circ : Nat) : R (String × PoolCall Float) := do
+  let t ← tok
+  match t with
+  | "K" => pure (t, .moveCtor)
+  | "Q" => pure (t, .moveAssign)
+  | "T" => pure (t, .toggle)
+  | _ => do
+    let c ← readCall1 lin circ t
+    pure (t, .call c)
+
+def readCalls (lin circ : Nat) : Nat → R (List (String × PoolCall Float))
   | 0 => pure []
   | n + 1 => do
     let c ← readCall lin circ
     let rest ← readCalls lin circ n
     pure (c :: rest)
-
 /-- branch tags of a call in a state (for the coverage histogram of the check) -/
 def tags (s : EE Float) (c : Call Float) : List String :=
   let ex (a : Args Float) (five : Bool) : List String :=
@@ -160,17 +184,20 @@ def ee : R String := do
   let lin ← nat; let circ ← nat; let n ← nat
   let calls ← readCalls lin circ n
   done
-  let mut s : EE Float := EE.init lin circ
+  let mut p : Pool Float := Pool.init lin circ
   let mut outs : Array String := #[]
-  for (t, c) in calls do
-    let tg := tags s c
-    let mv := mapVals c s
-    let r := step dblMin s c
-    s := r.1
+  for (t, pc) in calls do
+    let s := p.get p.cur
+    let (tg, mv) := match pc with
+      | .call c => (tags s c, mapVals c s)
+      | _ => (["t:hand-over:" ++ t], [])
+    let r := poolStep dblMin p pc
+    p := r.1
+    let s' := p.get p.cur
     let est := match r.2.est with
       | some e => e.map floatStr
       | none => []
-    outs := outs.push (join ([t, if r.2.flag then "1" else "0", toString s.hist.window] ++ est ++ tg ++ mv))
+    outs := outs.push (join ([t, if r.2.flag then "1" else "0", toString s'.hist.window, toString (natOfMethod s'.method)] ++ est ++ tg ++ mv))
   pure (" | ".intercalate outs.toList)
 
 def eew : R String := do
